@@ -244,7 +244,9 @@ type obsReq struct {
 	KnowAfter    bool     `json:"knowAfter"`
 	StoredAfter  bool     `json:"storedAfter"`
 	Seen         int      `json:"seen"`
-	Jail         bool     `json:"jail"`
+	Jail         string   `json:"jail"`
+	Look         bool     `json:"look"`
+	Wait         int      `json:"wait"`
 	JailSeen     int      `json:"jailSeen"`
 	StartSeq     int      `json:"startSeq"`
 	EndSeq       int      `json:"endSeq"`
@@ -339,7 +341,7 @@ func waitCh(c chan struct{}, d time.Duration) bool {
 func project(req int, kind string, rr *reqResult, evs []event, actual bool) (obsReq, []map[string]any) {
 	var mm []map[string]any
 	marker := fmt.Sprintf("m%d", req)
-	o := obsReq{URL: "a", Status: 200, Exact: true, Defined: allSubs, Seen: -1, JailSeen: -1, Flows: []string{}, Acts: []string{}}
+	o := obsReq{URL: "a", Status: 200, Exact: true, Defined: allSubs, Seen: -1, JailSeen: -1, Jail: "no", Flows: []string{}, Acts: []string{}}
 	if !rr.done {
 		o.Outcome = "hang"
 		mm = append(mm, map[string]any{"obs": "no-response", "req": req})
